@@ -224,7 +224,8 @@ async def spawn_tasks(
         name="stop-flag checker",
         coro=stop_flag_checker(
             signal_flag=signal_flag,
-            stop_flag=stop_flag)))
+            stop_flag=stop_flag,
+            core_tasks=core_tasks)))  # used as a "live" view, populated later.
     tasks.append(asyncio.create_task(
         name="ultimate termination",
         coro=ultimate_termination(
@@ -425,10 +426,17 @@ async def run_tasks(
 async def stop_flag_checker(
         signal_flag: aiotasks.Future,
         stop_flag: aioadapters.Flag | None,
+        core_tasks: Collection[aiotasks.Task] = (),  # mutated externally!
 ) -> None:
     """
     A top-level task for external stopping by setting a stop-flag. Once set,
     this task will exit, and thus all other top-level tasks will be cancelled.
+
+    The same happens if any of the "core" tasks exits: they never exit normally,
+    and nothing else awaits them until the very end. Without this, an operator
+    with e.g. a dead credentials retriever would continue half-alive: with no
+    valid credentials ever again and with all the API clients blocked forever.
+    In that case, this task fails with the same error as the core task.
     """
 
     # Selects the flags to be awaited (if set).
@@ -437,6 +445,7 @@ async def stop_flag_checker(
         flags.append(signal_flag)
     if stop_flag is not None:
         flags.append(asyncio.create_task(aioadapters.wait_flag(stop_flag), name="stop-flag waiter"))
+    flags.extend(core_tasks)
 
     # Wait until one of the stoppers is set/raised.
     try:
@@ -504,6 +513,7 @@ async def startup_cleanup_activities(
     """
     logger.debug(f"Starting Kopf {versions.version or '(unknown version)'}.")
 
+    core_done: Collection[aiotasks.Task] = set()
     try:
         # Execute the startup activity before any root task starts running (due to readiness flag).
         try:
@@ -545,7 +555,6 @@ async def startup_cleanup_activities(
         # We own and manage "core" tasks, we cannot let them remain unattended or orphaned.
         try:
             core_done, _ = await aiotasks.stop(core_tasks, title="Core", logger=logger, interval=10)
-            await aiotasks.reraise(core_done)
         except asyncio.CancelledError:
             logger.warning("Cleanup activity is not executed at all due to cancellation.")
             raise
@@ -564,3 +573,7 @@ async def startup_cleanup_activities(
     except asyncio.CancelledError:
         logger.warning("Cleanup activity is only partially executed due to cancellation.")
         raise
+
+    # Re-raise the errors of the core tasks, if any --- but only after the cleanup is done,
+    # as with the errors of any root task (which do not prevent the cleanup either).
+    await aiotasks.reraise(core_done)
